@@ -93,6 +93,8 @@ func (h *connIDManager) add(f *wire.NewConnectionIDFrame) error {
 		h.queueControlFrame(&wire.RetireConnectionIDFrame{
 			SequenceNumber: f.SequenceNumber,
 		})
+		// The Retire Prior To field applies even if the connection ID of the frame itself is retired right away.
+		h.retirePriorTo(f.RetirePriorTo)
 		return nil
 	}
 
@@ -123,6 +125,10 @@ func (h *connIDManager) add(f *wire.NewConnectionIDFrame) error {
 	}
 
 	if f.SequenceNumber == h.activeSequenceNumber || probing {
+		// A duplicate of the frame for a connection ID used for path probing can carry a higher Retire Prior To.
+		if h.activeSequenceNumber < f.RetirePriorTo && len(h.queue) > 0 {
+			h.updateConnectionID()
+		}
 		return nil
 	}
 
@@ -135,7 +141,39 @@ func (h *connIDManager) add(f *wire.NewConnectionIDFrame) error {
 		// The queue is guaranteed to have at least one element at this point.
 		h.updateConnectionID()
 	}
+	// An earlier Retire Prior To could not be honoured as long as there was no connection ID to switch to.
+	if h.activeSequenceNumber < h.highestRetired {
+		h.updateConnectionID()
+	}
 	return nil
+}
+
+// retirePriorTo retires all connection IDs with a sequence number smaller than the Retire Prior To
+// value of a NEW_CONNECTION_ID frame whose own connection ID is not stored.
+// The active connection ID can only be retired if there is another connection ID to switch to.
+func (h *connIDManager) retirePriorTo(retirePriorTo uint64) {
+	for id, entry := range h.pathProbing {
+		if entry.SequenceNumber < retirePriorTo {
+			h.queueControlFrame(&wire.RetireConnectionIDFrame{SequenceNumber: entry.SequenceNumber})
+			h.removeStatelessResetToken(entry.StatelessResetToken)
+			delete(h.pathProbing, id)
+		}
+	}
+	if retirePriorTo > h.highestRetired {
+		var newQueue []newConnID
+		for _, entry := range h.queue {
+			if entry.SequenceNumber >= retirePriorTo {
+				newQueue = append(newQueue, entry)
+			} else {
+				h.queueControlFrame(&wire.RetireConnectionIDFrame{SequenceNumber: entry.SequenceNumber})
+			}
+		}
+		h.queue = newQueue
+		h.highestRetired = retirePriorTo
+	}
+	if h.activeSequenceNumber < retirePriorTo && len(h.queue) > 0 {
+		h.updateConnectionID()
+	}
 }
 
 func (h *connIDManager) isProbing(seq uint64) bool {
